@@ -974,6 +974,9 @@ type methodSpec struct {
 	// Update: update-signature method `Name(source In, target *T)`; Out holds T.
 	Update   bool
 	Fallible bool // update method with an error result
+	// TargetFirst: the update method declares its target parameter before the source
+	// (`Name(target *T, source In)`), which the signature rules allow.
+	TargetFirst bool
 }
 
 // methods lists the declared converter methods: the roots in several container positions,
@@ -1059,6 +1062,14 @@ func (s *Spec) methods(twin bool) []methodSpec {
 		}
 		if len(doc) > 0 || isRoot || n.MethodSrc || n.Ctor {
 			ms = append(ms, methodSpec{Name: fmt.Sprintf("Conv%d", id), In: fmt.Sprintf("S%d", id), Out: out(fmt.Sprintf("T%d", id)), Doc: doc})
+		}
+	}
+	if s.Prop == "C04" && s.Format == "struct" && !twin {
+		// an update method over one identical type on both sides whose TARGET parameter comes
+		// first: roles are given by goverter:update, not by position
+		for _, id := range sortedIDs(s.Shared) {
+			ms = append(ms, methodSpec{Name: fmt.Sprintf("UpdT%d", id), In: fmt.Sprintf("*Sh%d", id), Out: fmt.Sprintf("Sh%d", id), Update: true, TargetFirst: true, Doc: []string{"goverter:update target"}})
+			break
 		}
 	}
 	if s.TypedErrLeaf != 0 {
@@ -1168,6 +1179,8 @@ func (s *Spec) ConverterSource() string {
 			}
 			if m.Update && m.Fallible {
 				fmt.Fprintf(&b, "\t%s(source %s, target *%s) error\n", n, m.In, m.Out)
+			} else if m.Update && m.TargetFirst {
+				fmt.Fprintf(&b, "\t%s(target *%s, source %s)\n", n, m.Out, m.In)
 			} else if m.Update {
 				fmt.Fprintf(&b, "\t%s(source %s, target *%s)\n", n, m.In, m.Out)
 			} else {
